@@ -69,6 +69,13 @@ CLAIMED["C16"] = {
     "design": "4/C16",
 }
 
+CLAIMED["C18"] = {
+    "text": "Lean theorems over the dotenv decision procedure (any ancestor depth): nothing is probed or loaded when no dotenv setting/flag is active; --no-dotenv disables loading; a flag behaves exactly like the setting with that value and the setting's own value is ignored; the file at dotenv-path wins when it exists, otherwise the nearest dotenv-filename (default .env) in the working directory or its ancestors, also when dotenv-path is set but missing; a missing file is an error only under dotenv-required; loaded entries never override the environment and new names are visible. Correspondence: product of settings x flags x file placements x invocation forms (sampled in quick, complete in thorough) against the binary, with decoy files in the justfile directory and a submodule with its own dotenv settings; the value seen by children and by env() at a module-level backtick, a root recipe and a submodule recipe; strace sample for 'no file is opened when inactive'.",
+    "note": "Trusted: Lean kernel; Dotenv model (tied by the differential run); dotenvy's file syntax (plain K=V lines); strace support check is not a proof.",
+    "technique": "Lean 4 proof of the decision procedure + product-space differential against the binary",
+    "design": "4/C18",
+}
+
 PENDING = "check not built yet in this session (see DESIGN.md build order); no claim is made"
 
 
